@@ -88,6 +88,17 @@ impl VSim {
         self.env.block.height += 1;
         self.env.block.time = Timestamp::from_seconds(self.env.block.time.seconds() + dt);
     }
+    /// new block `dt` whole seconds later with a given sub-second fraction (block times carry nanoseconds)
+    pub fn next_block_nanos(&mut self, dt: u64, frac_nanos: u64) {
+        self.env.block.height += 1;
+        let secs = self.env.block.time.seconds() + dt;
+        let mut t = Timestamp::from_nanos(secs * 1_000_000_000 + frac_nanos % 1_000_000_000);
+        // time never goes backwards
+        if t.nanos() <= self.env.block.time.nanos() {
+            t = Timestamp::from_nanos(self.env.block.time.nanos() + 1);
+        }
+        self.env.block.time = t;
+    }
     pub fn now(&self) -> u64 {
         self.env.block.time.seconds()
     }
